@@ -150,12 +150,24 @@ fn source_shapes(src: &str) -> (bool, bool) {
 
 fn needs_line_breaks(src: &str, opts: &FormatOptions) -> bool {
     use unicode_width::UnicodeWidthStr;
-    let wide = FormatOptions { line_length: 255, ..*opts };
+    // the unbroken rendering: no line-length pressure and no threshold-driven chain breaking
+    let wide = FormatOptions { line_length: 255, chain_break_threshold: 0, ..*opts };
     let src2 = src.to_string();
-    match std::panic::catch_unwind(move || koto_format::format(&src2, wide)) {
+    let too_wide = match std::panic::catch_unwind(move || koto_format::format(&src2, wide)) {
         Ok(Ok(text)) => text.lines().any(|l| l.width() + 1 > opts.line_length as usize),
         _ => false,
+    };
+    if too_wide {
+        return true;
     }
+    // or the formatter demonstrably broke a line because of the line length: the output differs
+    // from the output with the same options and no line-length pressure
+    let relaxed = FormatOptions { line_length: 255, ..*opts };
+    let (a, b) = (src.to_string(), src.to_string());
+    let o = *opts;
+    let with = std::panic::catch_unwind(move || koto_format::format(&a, o).ok()).ok().flatten();
+    let without = std::panic::catch_unwind(move || koto_format::format(&b, relaxed).ok()).ok().flatten();
+    with.is_some() && with != without
 }
 
 fn classify(class: &str, src: &str, opts: &FormatOptions) -> Option<String> {
